@@ -41,6 +41,10 @@ pub struct Program {
     pub nodes: usize,
     pub writes: u32,
     pub rogue: Vec<Rogue>,
+    /// cluster scenario: the writes are issued back to back (acknowledgements of one operation arrive while
+    /// the next ones are being handed to the members); the count must be back at zero when all is quiet
+    #[serde(default)]
+    pub back_to_back: bool,
 }
 
 const NODES: [&str; 3] = ["10.9.0.1:3014", "10.9.0.2:3014", "10.9.0.3:3014"];
@@ -77,11 +81,14 @@ fn gen_unit(rng: &mut Rng) -> Program {
             t.swap(i, i + 1);
         }
     }
-    Program { tasks, nodes: 0, writes: 0, rogue: vec![] }
+    Program { tasks, nodes: 0, writes: 0, rogue: vec![], back_to_back: false }
 }
 
 fn gen_cluster(rng: &mut Rng) -> Program {
     let n = rng.range(0, 3) as usize;
+    if rng.chance(1, 3) {
+        return Program { tasks: vec![], nodes: rng.range(2, 3) as usize, writes: rng.range(3, 14) as u32, rogue: vec![], back_to_back: true };
+    }
     Program {
         tasks: vec![],
         nodes: rng.range(2, 3) as usize,
@@ -93,6 +100,7 @@ fn gen_cluster(rng: &mut Rng) -> Program {
                 _ => Rogue::Foreign,
             })
             .collect(),
+        back_to_back: false,
     }
 }
 
@@ -347,6 +355,34 @@ fn execute_cluster(prog: Program) -> Outcome {
     rogue.request(&format!("auth {} {}", USER, PWD), 2_000);
     with(|k| k.net.line_log = Some(Vec::new()));
     let mut ri = 0;
+    if prog.back_to_back {
+        for i in 0..prog.writes {
+            admin.exec(&format!("set k{} v{}", i % 3, i));
+        }
+        if !w.settle(300, 8_000) {
+            out.violations.push(Violation::new("no-quiescence", "back-to-back".to_string(), format!("{} writes back to back: cluster still talking after 8 s", prog.writes)));
+            return out;
+        }
+        // asked over the wire, with a time limit: a node whose accounting is wedged does not answer
+        match rogue.request("metrics-state", 5_000) {
+            None => {
+                out.violations.push(Violation::new("accounting-wedged", "back-to-back".to_string(), format!("{} writes back to back: `metrics-state` is not answered within 5 s", prog.writes)));
+            }
+            Some(lines) => {
+                let n = lines.iter().find_map(|m| {
+                    m.find("pending_ops: ").map(|i| m[i + 13..].chars().take_while(|c| c.is_ascii_digit()).collect::<String>()).and_then(|x| x.parse::<u64>().ok())
+                });
+                if n != Some(0) {
+                    out.violations.push(Violation::new(
+                        "pending-not-zero",
+                        "back-to-back".to_string(),
+                        format!("{} writes back to back, everything quiet: pending_ops = {:?} ({:?})", prog.writes, n, lines),
+                    ));
+                }
+            }
+        }
+        return out;
+    }
     for i in 0..prog.writes {
         admin.exec(&format!("set k v{}", i));
         if !w.settle(200, 5_000) {
